@@ -233,43 +233,44 @@ GEN = {"hostile": fam_hostile, "wrap": fam_wrap, "out": fam_out, "restart": fam_
 
 # Bounded instances of spec/MqttClient.tla: script, constants, export sampling (1 = whole transition cover)
 MC = {
-    "one":   dict(script="ScriptOne",   amax=2, emax=2, conns=2, dial=1, write=1, read=1, store=0, calls=4, k_quick=3, k_thorough=1),
-    "q2":    dict(script="ScriptQ2",    amax=2, emax=2, conns=2, dial=1, write=1, read=1, store=1, calls=4, k_quick=40, k_thorough=4),
-    "close": dict(script="ScriptClose", amax=2, emax=2, conns=2, dial=1, write=1, read=1, store=0, calls=4, k_quick=150, k_thorough=15),
-    "two":   dict(script="ScriptTwo",   amax=2, emax=2, conns=2, dial=0, write=1, read=0, store=0, calls=3, k_quick=400, k_thorough=60),
-    "max1":  dict(script="ScriptTwo",   amax=1, emax=1, conns=1, dial=0, write=0, read=0, store=0, calls=3, k_quick=30, k_thorough=3),
-    "req":   dict(script="ScriptReq",   amax=2, emax=2, conns=2, dial=1, write=1, read=0, store=0, calls=4, k_quick=20, k_thorough=2),
-    "pings": dict(script="ScriptPings", amax=2, emax=2, conns=2, dial=1, write=1, read=0, store=0, calls=4, k_quick=15, k_thorough=2),
-    "reqclose": dict(script="ScriptReqClose", amax=2, emax=2, conns=2, dial=0, write=1, read=0, store=0, calls=3, k_quick=200, k_thorough=25),
-    "in":    dict(script="ScriptNone", inmsgs="In012", amax=2, emax=2, conns=2, dial=0, write=1, read=1, store=1, calls=7, k_quick=5, k_thorough=1),
-    "in22":  dict(script="ScriptNone", inmsgs="In22", amax=2, emax=2, conns=3, dial=0, write=1, read=1, store=1, calls=7, k_quick=30, k_thorough=3),
-    "restart": dict(script="ScriptQ2", script2="Gen2Q2", stops=1, amax=2, emax=2, conns=2, dial=0, write=0, read=0, store=0, calls=4, k_quick=20, k_thorough=2),
-    "restart2": dict(script="ScriptQ12", script2="Gen2Q1", stops=2, amax=2, emax=2, conns=2, dial=0, write=0, read=0, store=0, calls=4, k_quick=300, k_thorough=30),
-    "damage": dict(script="ScriptQ12", script2="Gen2Q2", stops=1, damage=1, amax=2, emax=2, conns=2, dial=0, write=0, read=0, store=0, calls=4, k_quick=150, k_thorough=15),
+    "one":   dict(script="ScriptOne",   amax=2, emax=2, conns=2, dial=1, write=1, read=1, store=0, calls=4, k_quick=4, k_thorough=1),
+    "q2":    dict(script="ScriptQ2",    amax=2, emax=2, conns=2, dial=1, write=1, read=1, store=1, calls=4, k_quick=40, k_thorough=8),
+    "close": dict(script="ScriptClose", amax=2, emax=2, conns=2, dial=1, write=1, read=1, store=0, calls=4, k_quick=200, k_thorough=40),
+    "two":   dict(script="ScriptTwo",   amax=2, emax=2, conns=2, dial=0, write=1, read=0, store=0, calls=3, k_quick=400, k_thorough=80),
+    "max1":  dict(script="ScriptTwo",   amax=1, emax=1, conns=1, dial=0, write=0, read=0, store=0, calls=3, k_quick=30, k_thorough=6),
+    "req":   dict(script="ScriptReq",   amax=2, emax=2, conns=2, dial=1, write=1, read=0, store=0, calls=4, k_quick=50, k_thorough=10),
+    "pings": dict(script="ScriptPings", amax=2, emax=2, conns=2, dial=1, write=1, read=0, store=0, calls=4, k_quick=40, k_thorough=8),
+    "reqclose": dict(script="ScriptReqClose", amax=2, emax=2, conns=2, dial=0, write=1, read=0, store=0, calls=3, k_quick=300, k_thorough=60),
+    "in":    dict(script="ScriptNone", inmsgs="In012", amax=2, emax=2, conns=2, dial=0, write=1, read=1, store=1, calls=7, k_quick=25, k_thorough=5),
+    "in22":  dict(script="ScriptNone", inmsgs="In22", amax=2, emax=2, conns=3, dial=0, write=1, read=1, store=1, calls=7, k_quick=100, k_thorough=20),
+    "restart": dict(script="ScriptQ2", script2="Gen2Q2", stops=1, amax=2, emax=2, conns=2, dial=0, write=0, read=0, store=0, calls=4, k_quick=20, k_thorough=4),
+    "restart2": dict(script="ScriptQ12", script2="Gen2Q1", stops=2, amax=2, emax=2, conns=2, dial=0, write=0, read=0, store=0, calls=4, k_quick=300, k_thorough=60),
+    "damage": dict(script="ScriptQ12", script2="Gen2Q2", stops=1, damage=1, amax=2, emax=2, conns=2, dial=0, write=0, read=0, store=0, calls=4, k_quick=150, k_thorough=30),
     # the specification with a pinned behaviour switched back on: it regenerates the finding as behaviours that reach a
     # forbidden state (ExportBad); replayed on the real code they reproduce the defect if it ever returns
     "devF25": dict(script="ScriptPings2", dev="F25", bad=True, amax=2, emax=2, conns=2, dial=0, write=0, read=1, store=0, calls=4, k_quick=1, k_thorough=1),
-    "damage3": dict(script="ScriptQ222", script2="Gen2None", stops=1, damage=1, amax=2, emax=3, conns=2, dial=0, write=0, read=0, store=0, calls=6, k_quick=400, k_thorough=40),
-    "disc":  dict(script="ScriptDisc", amax=2, emax=2, conns=2, dial=1, write=1, read=0, store=0, calls=4, k_quick=60, k_thorough=6),
-    "discreq": dict(script="ScriptDiscReq", amax=2, emax=2, conns=2, dial=0, write=1, read=0, store=0, calls=3, k_quick=120, k_thorough=12),
-    "damage5": dict(script="ScriptQ1x5", script2="Gen2None", stops=1, damage=2, amax=5, emax=2, conns=2, dial=0, write=0, read=0, store=0, calls=6, k_quick=2000, k_thorough=200),
-    "damage24": dict(script="ScriptQ2x4", script2="Gen2None", stops=1, damage=1, amax=2, emax=4, conns=2, dial=0, write=0, read=0, store=0, calls=7, k_quick=6000, k_thorough=600, thorough_only=True),
-    "inrestart": dict(script="ScriptNone", script2="Gen2None", inmsgs="In22", stops=1, amax=2, emax=2, conns=3, dial=0, write=1, read=1, store=0, calls=8, k_quick=100, k_thorough=10),
+    "damage3": dict(script="ScriptQ222", script2="Gen2None", stops=1, damage=1, amax=2, emax=3, conns=2, dial=0, write=0, read=0, store=0, calls=6, k_quick=400, k_thorough=80),
+    "disc":  dict(script="ScriptDisc", amax=2, emax=2, conns=2, dial=1, write=1, read=0, store=0, calls=4, k_quick=60, k_thorough=12),
+    "discreq": dict(script="ScriptDiscReq", amax=2, emax=2, conns=2, dial=0, write=1, read=0, store=0, calls=3, k_quick=120, k_thorough=24),
+    "damage5": dict(script="ScriptQ1x5", script2="Gen2None", stops=1, damage=2, amax=5, emax=2, conns=2, dial=0, write=0, read=0, store=0, calls=6, k_quick=2000, k_thorough=400),
+    "damage24": dict(script="ScriptQ2x4", script2="Gen2None", stops=1, damage=1, amax=2, emax=4, conns=2, dial=0, write=0, read=0, store=0, calls=7, k_quick=6000, k_thorough=1200, thorough_only=True),
+    "inrestart": dict(script="ScriptNone", script2="Gen2None", inmsgs="In22", stops=1, amax=2, emax=2, conns=3, dial=0, write=1, read=1, store=0, calls=8, k_quick=200, k_thorough=40),
     # the same scripts with processes that may block inside the library after they left their gate (thorough tier)
-    "req_b": dict(script="ScriptReq", blocking=True, amax=2, emax=2, conns=2, dial=1, write=1, read=0, store=0, calls=4, k_quick=200, k_thorough=20, thorough_only=True),
-    "close_b": dict(script="ScriptClose", blocking=True, amax=2, emax=2, conns=2, dial=1, write=1, read=1, store=0, calls=4, k_quick=400, k_thorough=40, thorough_only=True),
+    "req_b": dict(script="ScriptReq", blocking=True, amax=2, emax=2, conns=2, dial=1, write=1, read=0, store=0, calls=4, k_quick=200, k_thorough=40, thorough_only=True),
+    "close_b": dict(script="ScriptClose", blocking=True, amax=2, emax=2, conns=2, dial=1, write=1, read=1, store=0, calls=4, k_quick=400, k_thorough=80, thorough_only=True),
     # runs that start with the adoption of a Persistence an earlier incarnation left behind, with every subset of up to two
     # records removed or altered before (StoreWrap: both sequences straddle the identifier wrap)
-    "seedmix": dict(script="ScriptNew", initstore="StoreMix", initdamage=2, amax=4, emax=4, conns=2, dial=0, write=0, read=0, store=0, calls=12, k_quick=500, k_thorough=50),
-    "seedwrap": dict(script="ScriptNew", initstore="StoreWrap", initdamage=2, amax=4, emax=4, conns=2, dial=0, write=0, read=0, store=0, calls=12, k_quick=400, k_thorough=40),
-    "seedrels": dict(script="ScriptNew", initstore="StoreRels", initdamage=1, amax=2, emax=2, conns=2, dial=0, write=1, read=1, store=0, calls=8, k_quick=30, k_thorough=3),
-    "q12w2": dict(script="ScriptQ12", amax=2, emax=2, conns=2, dial=0, write=2, read=0, store=0, calls=4, k_quick=25, k_thorough=3),
-    "quit":  dict(script="ScriptQuit", amax=2, emax=2, conns=2, dial=0, write=0, read=1, store=0, calls=4, k_quick=150, k_thorough=15),
-    "unsub": dict(script="ScriptUnsub", amax=2, emax=2, conns=2, dial=0, write=1, read=1, store=0, calls=4, k_quick=60, k_thorough=6),
-    "mixreq": dict(script="ScriptMixReq", amax=2, emax=2, conns=2, dial=1, write=1, read=0, store=0, calls=4, k_quick=25, k_thorough=3),
+    "seedmix": dict(script="ScriptNew", initstore="StoreMix", initdamage=2, amax=4, emax=4, conns=2, dial=0, write=0, read=0, store=0, calls=12, k_quick=500, k_thorough=100),
+    "seedwrap": dict(script="ScriptNew", initstore="StoreWrap", initdamage=2, amax=4, emax=4, conns=2, dial=0, write=0, read=0, store=0, calls=12, k_quick=400, k_thorough=80),
+    "seedwrap0": dict(script="ScriptNew", initstore="StoreWrap", initdamage=0, amax=4, emax=4, conns=2, dial=0, write=0, read=1, store=0, calls=12, k_quick=800, k_thorough=160),
+    "seedrels": dict(script="ScriptNew", initstore="StoreRels", initdamage=1, amax=2, emax=2, conns=2, dial=0, write=1, read=1, store=0, calls=8, k_quick=200, k_thorough=40),
+    "q12w2": dict(script="ScriptQ12", amax=2, emax=2, conns=2, dial=0, write=2, read=0, store=0, calls=4, k_quick=25, k_thorough=5),
+    "quit":  dict(script="ScriptQuit", amax=2, emax=2, conns=2, dial=0, write=0, read=1, store=0, calls=4, k_quick=150, k_thorough=30),
+    "unsub": dict(script="ScriptUnsub", amax=2, emax=2, conns=2, dial=0, write=1, read=1, store=0, calls=4, k_quick=100, k_thorough=20),
+    "mixreq": dict(script="ScriptMixReq", amax=2, emax=2, conns=2, dial=1, write=1, read=0, store=0, calls=4, k_quick=100, k_thorough=20),
 }
 MC_FOR = {
-    "C01": ["one", "q2"], "C03": ["q2", "seedwrap"], "C05": ["two"], "C10": ["one", "mixreq"], "C12": ["close", "reqclose", "disc", "discreq", "close_b"], "C17": ["max1", "one"],
+    "C01": ["one", "q2"], "C03": ["q2", "seedwrap0"], "C05": ["two"], "C10": ["one", "mixreq"], "C12": ["close", "reqclose", "disc", "discreq", "close_b"], "C17": ["max1", "one"],
     "C18": ["one", "req"], "C14": ["req", "close", "quit", "unsub"], "C08": ["mixreq", "two", "q12w2"], "C11": ["req", "pings", "quit", "unsub", "devF25", "req_b"],
     "C04": ["in22", "in", "inrestart"], "C07": ["in", "in22", "inrestart"], "C13": ["in"], "C02": ["restart", "restart2", "seedwrap", "seedrels"], "C16": ["damage", "damage3", "damage5", "damage24", "seedmix", "seedwrap"],
 }
@@ -316,7 +317,7 @@ def tlc_behaviours(ctx, name, cap):
     with open(os.path.join(ctx.specdir(), cfgname), "w") as f:
         f.write(cfg)
     res = pipeline.model_check(ctx, "MC_client", cfgname, args=["-seed", str(ctx.seed)], timeout=1500)
-    cases = pipeline.parse_cases(res.out, "BAD" if c.get("bad") else "CASE", limit=max(3000, cap * 4))
+    cases = pipeline.parse_cases(res, "BAD" if c.get("bad") else "CASE", limit=max(3000, cap * 4))
     if c.get("bad"):
         cases = cases[:40]
         ctx.cov["regenerated_findings"] = ctx.cov.get("regenerated_findings", {})
